@@ -25,9 +25,9 @@ What is proved, and under which hypotheses:
 * `C14_best_chain`: for every history of connections/disconnections in which each connection
   satisfies the hypotheses above, the final state is the replay of the surviving chain, and
   (`C14_reorg_no_abort`) no disconnection panics.
-* `C14_roundtrip_watches_partial`: the watched outpoints (`ListenSlot`) are restored as sets for
-  blocks without HTLC spends; `C14_roundtrip_watches_false` REFUTES the property for a block that
-  spends an HTLC output (finding F13: `apply_backward_change` returns swapped deltas).
+* `C14_roundtrip_watches`: the watched outpoints (`ListenSlot`) are restored as sets for every
+  block, HTLC and second-level spends included (full strength since fix fc0e6dd; the former
+  counter-example is now the positive instance `C14_roundtrip_watches_htlc`).
 -/
 namespace VlsModel.Props.C14
 open VlsModel VlsModel.Monitor
@@ -46,8 +46,8 @@ structure GoodWith (s : State) (txs : List Tx) (cs : List Change) : Prop where
 def Good (s : State) (txs : List Tx) : Prop := ∃ cs, GoodWith s txs cs
 
 /-- Round trip with the watch deltas: remove ∘ add restores every state field (`sawBlock` aside,
-which `add` sets for good), and for change lists without HTLC spends the deltas handed to the
-tracker on removal are permutations of those handed over on addition. -/
+which `add` sets for good), and the deltas handed to the tracker on removal are permutations of
+those handed over on addition (for every change kind, HTLC spends included, since fix fc0e6dd). -/
 theorem C14_roundtrip {s s1 : State} {txs : List Tx} {cs : List Change} {a r : List OutPoint}
     (hwf : WF s)
     (hdet : detect { s with sawBlock := true } txs = some cs)
@@ -56,7 +56,7 @@ theorem C14_roundtrip {s s1 : State} {txs : List Tx} {cs : List Change} {a r : L
     (hadd : addBlock s txs = some (s1, a, r))
     (hstable : detect { s1 with sawBlock := true } txs = some cs) :
     ∃ a' r', removeBlock s1 txs = some ({ s with sawBlock := true }, a', r') ∧
-      ((∀ c ∈ cs, c.isHS = false) → a'.Perm a ∧ r'.Perm r) := by
+      (a'.Perm a ∧ r'.Perm r) := by
   simp only [addBlock, hdet] at hadd
   have hwf' : WF { s with sawBlock := true } := hwf
   obtain ⟨a', r', h1, h2⟩ := addEnd_removeEnd hwf' hpre hds hadd
@@ -185,12 +185,13 @@ theorem C14_forward_order_aborts :
 
 /-! ### Watched outpoints (`ListenSlot`) -/
 
-/-- **C14, watches, partial**: for a block whose change list contains no HTLC spend
-(`htlcSpent`/`secondSpent`), the deltas `(A', R')` returned on disconnection are permutations of
-the deltas `(A, R)` returned on connection, and a slot for which the additions are new
-(`A ∩ watches = ∅`), every removal is of something watched or just added, and no removal was seen
-before, has after add-then-remove the same watched and the same seen outpoints (as sets). -/
-theorem C14_roundtrip_watches_partial {s s1 : State} {txs : List Tx} {cs : List Change}
+/-- **C14, watches**: for every block (HTLC and second-level spends included) the deltas `(A', R')`
+returned on disconnection are permutations of the deltas `(A, R)` returned on connection, and a
+slot for which the additions are new (`A ∩ watches = ∅`), every removal is of something watched or
+just added, and no removal was seen before, has after add-then-remove the same watched and the
+same seen outpoints (as sets).  (Before fix fc0e6dd this failed for blocks with HTLC spends:
+finding F16, formerly refuted here by `C14_roundtrip_watches_false`.) -/
+theorem C14_roundtrip_watches {s s1 : State} {txs : List Tx} {cs : List Change}
     {A R : List OutPoint} (sl : Slot)
     (hwf : WF s)
     (hdet : detect { s with sawBlock := true } txs = some cs)
@@ -198,7 +199,6 @@ theorem C14_roundtrip_watches_partial {s s1 : State} {txs : List Tx} {cs : List 
     (hds : ∀ op, Change.fundingConfirmed op ∈ cs → s.dsHeight = none)
     (hadd : addBlock s txs = some (s1, A, R))
     (hstable : detect { s1 with sawBlock := true } txs = some cs)
-    (hnoHtlc : ∀ c ∈ cs, c.isHS = false)
     (h1 : ∀ x ∈ A, x ∉ sl.watches) (h2 : ∀ x ∈ R, x ∈ A ∨ x ∈ sl.watches)
     (h3 : ∀ x ∈ R, x ∉ sl.seen) :
     ∃ A' R', removeBlock s1 txs = some ({ s with sawBlock := true }, A', R') ∧
@@ -206,7 +206,7 @@ theorem C14_roundtrip_watches_partial {s s1 : State} {txs : List Tx} {cs : List 
       (∀ x, x ∈ ((sl.onAdd A R).onRemove A' R').watches ↔ x ∈ sl.watches) ∧
       (∀ x, x ∈ ((sl.onAdd A R).onRemove A' R').seen ↔ x ∈ sl.seen) := by
   obtain ⟨A', R', hrem, hperm⟩ := C14_roundtrip hwf hdet hpre hds hadd hstable
-  obtain ⟨pA, pR⟩ := hperm hnoHtlc
+  obtain ⟨pA, pR⟩ := hperm
   obtain ⟨w, sn⟩ := slot_roundtrip sl A R A' R' pA pR h1 h2 h3
   exact ⟨A', R', hrem, pA, pR, w, sn⟩
 
@@ -219,19 +219,14 @@ def exL : Listener :=
 /-- block with a transaction (txid 30) spending the HTLC outpoint (20,1) -/
 def exHtlcBlock : List Tx := [{ txid := 30, inputs := [(20, 1)], nOut := 1, kind := .plain }]
 
-/-- **C14, watches, REFUTED** (finding F13): connect then disconnect a block that spends an HTLC
-output.  The monitor state is restored, but the slot is not: the HTLC outpoint (20,1), watched
-before, is no longer watched (and stays in `seen`), while the second-level outpoint (30,0), which
-exists on no chain any more, is watched.  Cause: `apply_backward_change` returns the
-adds/removes of `HTLCOutputSpent` swapped with respect to `apply_forward_change`. -/
-theorem C14_roundtrip_watches_false :
-    (exL.add exHtlcBlock).bind (·.remove exHtlcBlock) =
-      some { st := exL.st,
-             slot := { txidWatches := [], watches := [(30, 0), (30, 0)], seen := [(7, 0), (20, 1)] } } ∧
-    (20, 1) ∈ exL.slot.watches ∧ (20, 1) ∉ [((30 : Nat), (0 : Nat)), (30, 0)] := by decide
+/-- The former counter-example (finding F16, fixed by fc0e6dd): connect then disconnect a block
+that spends an HTLC output.  State **and** slot are restored exactly: the HTLC outpoint (20,1) is
+watched again, the second-level outpoint (30,0) is not, `seen` is as before. -/
+theorem C14_roundtrip_watches_htlc :
+    (exL.add exHtlcBlock).bind (·.remove exHtlcBlock) = some exL ∧
+    ((exL.add exHtlcBlock).map (·.slot.watches)) = some [(30, 0)] := by decide
 
-/-- the refuting block satisfies every hypothesis of the state round trip (so the failure is in
-the watch deltas only, not in a violated precondition) -/
+/-- the HTLC block satisfies every hypothesis of the round trip -/
 theorem exHtlc_good : GoodWith exL.st exHtlcBlock [.htlcSpent 1 (30, 0)] where
   wf := ⟨by decide, by decide, by intro h0 h; simp [exL, exS1, exS0, State.init] at h⟩
   det := by decide
